@@ -375,6 +375,20 @@ def b_int(ex, e, st):
     st.assume(z3.Implies(z3.And(base == 10, z3.InRe(s_, z3.Plus(z3.Range('0', '9')))), val(s_, base) >= 0))
     # a single decimal digit denotes its digit value
     st.assume(z3.Implies(z3.And(base == 10, z3.Length(s_) == 1, digits10), val(s_, base) == z3.StrToCode(s_) - 48))
+    # the same sufficient condition character by character (what a checking loop establishes), bases 2, 8, 10, 16:
+    # a non-empty text all of whose characters are digits of the base parses (base 10: at most 4300 digits, CPython >= 3.11)
+    j = z3.Int(fresh_name('dj'))
+    c = lambda i: z3.StrToCode(z3.SubString(s_, i, 1))
+    dec = lambda i: z3.And(c(i) >= 48, c(i) <= 57)
+    isdig = lambda i: z3.If(base == 16, z3.Or(dec(i), z3.And(c(i) >= 65, c(i) <= 70), z3.And(c(i) >= 97, c(i) <= 102)),
+                            z3.If(base == 8, z3.And(c(i) >= 48, c(i) <= 55), z3.If(base == 2, z3.And(c(i) >= 48, c(i) <= 49), dec(i))))
+    alldig = z3.ForAll([j], z3.Implies(z3.And(0 <= j, j < z3.Length(s_)), isdig(j)))
+    st.assume(z3.Implies(z3.And(z3.Or(base == 2, base == 8, base == 10, base == 16), z3.Length(s_) >= 1, z3.Implies(base == 10, z3.Length(s_) <= 4300), alldig),
+                         z3.And(ok(s_, base), val(s_, base) >= 0)))
+    # the fixed-length escape forms (\\xXX, \\uXXXX, \\UXXXXXXXX, %XX): stated digit by digit, no quantifier
+    for n_ in (1, 2, 4, 8):
+        digs = z3.And(*[isdig(z3.IntVal(k)) for k in range(n_)])
+        st.assume(z3.Implies(z3.And(base == 16, z3.Length(s_) == n_, digs), z3.And(ok(s_, base), val(s_, base) >= 0, val(s_, base) < 16 ** n_)))
     ex.raise_if(st, z3.Not(ok(s_, base)), 'ValueError', 'safe/int-parse', e)
     return Val(mk_i(val(s_, base)), 'int')
 
@@ -476,6 +490,21 @@ def b_hash(ex, e, st):
     return Val(mk_i(f(v.t)), 'int')
 
 
+def b_bytes(ex, e, st):
+    used('bytes(list of ints): ValueError unless every element is in range(256)')
+    v = ex.ev(e.args[0], st)
+    if v.ty not in ('list', 'tuple'):
+        raise OutOfSubset('bytes() of %s' % v.ty)
+    q = ex.seq_of(st, v)
+    j = z3.Int(fresh_name('bj'))
+    okb = z3.ForAll([j], z3.Implies(z3.And(0 <= j, j < z3.Length(q)), z3.And(is_i(q[j]), iv(q[j]) >= 0, iv(q[j]) <= 255)))
+    ex.raise_if(st, z3.Not(okb), 'ValueError', 'safe/bytes-range', e)
+    f = z3.Function('py_bytes', SeqV, z3.StringSort())
+    r = f(q)
+    st.assume(z3.Length(r) == z3.Length(q))
+    return Val(mk_y(r), 'bytes')
+
+
 def b_type(ex, e, st):
     v = ex.ev(e.args[0], st)
     f = z3.Function('py_type', V, V)
@@ -554,7 +583,7 @@ def b_next(ex, e, st):
     return apply_contract(ex, REG.externs[key], None, st.env.get('self'), args[1:], {}, e, st, pnames=None, extra_env={'callee': args[0]})
 
 
-BUILTIN_FUNCS = {'hash': b_hash, 'sorted': b_sorted, 'next': b_next, 'len': b_len, 'isinstance': b_isinstance, 'ord': b_ord, 'chr': b_chr, 'int': b_int, 'str': b_str,
+BUILTIN_FUNCS = {'bytes': b_bytes, 'hash': b_hash, 'sorted': b_sorted, 'next': b_next, 'len': b_len, 'isinstance': b_isinstance, 'ord': b_ord, 'chr': b_chr, 'int': b_int, 'str': b_str,
                  'bool': b_bool, 'list': b_list, 'tuple': b_tuple, 'dict': b_dict, 'getattr': b_getattr,
                  'hasattr': b_hasattr, 'max': b_max, 'min': b_min, 'id': b_id, 'type': b_type, 'repr': b_repr}
 
@@ -565,7 +594,12 @@ def m_list(ex, recv, name, e, st):
     args = [ex.ev(a, st) for a in e.args]
     used('list.' + name)
     if name == 'append':
-        ex.set_seq(st, recv, z3.Concat(q, z3.Unit(args[0].t)))
+        nq = z3.Concat(q, z3.Unit(args[0].t))
+        # element-wise reading of the appended list (valid sequence facts, stated so that index-quantified invariants instantiate)
+        k = z3.Int(fresh_name('ak'))
+        st.assume(z3.ForAll([k], z3.Implies(z3.And(0 <= k, k < z3.Length(q)), nq[k] == q[k])))
+        st.assume(z3.And(nq[z3.Length(q)] == args[0].t, z3.Length(nq) == z3.Length(q) + 1))
+        ex.set_seq(st, recv, nq)
         return Val(NONE, 'none')
     if name == 'extend':
         ex.set_seq(st, recv, z3.Concat(q, ex.seq_of(st, args[0])))
@@ -584,7 +618,11 @@ def m_list(ex, recv, name, e, st):
         if not args:
             # valid lemma (n >= 1 on this path): the list is its prefix plus the popped element
             st.assume(q == z3.Concat(z3.Extract(q, 0, n - 1), z3.Unit(t)))
-            ex.set_seq(st, recv, z3.Extract(q, 0, n - 1))
+            pq = z3.Extract(q, 0, n - 1)
+            k = z3.Int(fresh_name('pk'))
+            st.assume(z3.ForAll([k], z3.Implies(z3.And(0 <= k, k < n - 1), pq[k] == q[k])))
+            st.assume(z3.Length(pq) == n - 1)
+            ex.set_seq(st, recv, pq)
         else:
             ex.set_seq(st, recv, z3.Concat(z3.Extract(q, 0, j), z3.Extract(q, j + 1, n - j - 1)))
         ex.assume_allocated(st, t)
